@@ -120,6 +120,8 @@ def readEMDAt (ct : ClassTable) (dt : List String) (f : Obj) (rootname : String)
       if t.info.gtype == "metadata" then throw (.error "not a Node")
       pure (.node (.mk rootInfo [t]) [nm])
     | .below => do
+      -- `_populate_tree(root, nodegroup)` calls `nodegroup.keys()`: a dataset has none
+      if !nodegroup.isGroup then throw (.error "dataset has no keys")
       let ks ← populateKids ct dt nodegroup.kids
       pure (.node (.mk rootInfo ks) [])
 
